@@ -124,7 +124,13 @@ def apply_op(pool, d, o):
         elif n == "Extend":
             d.extend([G(e) for e in a[0]]); out = ["None"]
         elif n == "IAdd":
-            d += [G(e) for e in a[0]]; out = ["None"]
+            rhs = [G(e) for e in a[0]]
+            if len(a) > 1 and a[1] == "dl":          # the right-hand side is itself a DictList (a slice, a query result)
+                try:
+                    rhs = type(d)(rhs)
+                except ValueError:
+                    pass                              # not unique among themselves: stays a plain list
+            d += rhs; out = ["None"]
         elif n == "Add":
             d.add(G(a[0])); out = ["None"]
         elif n == "Union":
@@ -260,7 +266,7 @@ def single_step_ops(nids, idx_range, slice_vals, slice_steps):
             ops.append(["SetItem", i, e])
     pairs = [[E[i], E[j]] for i in range(nids) for j in range(nids)]
     for es in [[]] + [[e] for e in E] + pairs:
-        ops += [["Extend", es], ["IAdd", es], ["Union", es], ["Plus", es]]
+        ops += [["Extend", es], ["IAdd", es], ["IAdd", es, "dl"], ["Union", es], ["Plus", es]]
     keys = [["id", i] for i in range(nids)] + [["obj", e] for e in E] + [["obj", e] for e in E2[:2]]
     for k in keys:
         ops += [["Remove", k], ["Index", k], ["Contains", k]]
@@ -350,6 +356,8 @@ def rand_history(rng, nids, length):
             o = [n, rand_index(rng, ln), rand_elem(rng, nids, ids_now, 0.2)]
         elif n in ("Extend", "IAdd", "Union", "Plus"):
             o = [n, [rand_elem(rng, nids, ids_now, 0.1) for _ in range(rng.randrange(0, 4))]]
+            if n == "IAdd" and rng.random() < 0.5:
+                o.append("dl")
         elif n in ("ISub", "Minus"):
             o = [n, [rand_key(rng, nids, cur, 0.12) for _ in range(rng.randrange(0, 3))]]
         elif n == "SetSlice":
